@@ -16,6 +16,14 @@
   * enumeration inclusions: every currency, country, regime, addon, document
     type and unit the Go validators accept is listed exactly once in the
     schema's `oneOf` of constants;
+  * validator inclusions (models of the repaired Go validators in
+    Model/SchemaLeaves.lean): whatever `Extensions.Validate` accepts as a value
+    is a text the schema of cbc/code accepts; a stored tax summary that
+    `(*tax.Total).Validate` accepts has, in every category, a conforming code
+    and a non-empty `rates` array whose keys, countries and extension values
+    conform; a tax identity code Go accepts — by the generic rule, or by the
+    Mexican one for the country exempt from it — is inside the pattern and
+    the length limits published for `tax.Identity.code`;
   * `Expect`: the keyword / pattern / format / type inventories of the files are
     pinned, so that a keyword the model does not evaluate cannot appear
     silently; the Go validators' patterns and length limits for keys and codes
@@ -30,6 +38,7 @@
 import GoblVerif.Spec.C11
 import GoblVerif.Model.SchemaLeaves
 import GoblVerif.Proofs.SchemaLeaves
+import GoblVerif.Proofs.SchemaValidators
 import GoblVerif.Generated.Schemas
 import GoblVerif.Generated.SchemaFacts
 
@@ -236,6 +245,151 @@ example : validateById (registryOf files) s%"https://gobl.org/draft-0/currency/c
     validateById (registryOf files) s%"https://gobl.org/draft-0/currency/code" (.str s%"XXQ")
       = .reject s%"oneOf" NStr.empty := by decide +kernel
 
+/-! ## (2b) validator inclusions: what the Go validators accept, the published leaf schemas accept
+
+  The models (`Leaves.requiredCode`, `extValueValidate`, `totalValidate`, `identityCodeGeneric`,
+  `mxNational` …) mirror the Go validators as repaired; `Expect.stored_total_validators`,
+  `Expect.extensions_validator` and `Expect.identity_code_pattern` pin their shape, the harness
+  compares them with the real validators on generated values.  The right-hand sides are what
+  the published schemas ask (`Expect.code_validator_is_schema`, `key_validator_is_schema`,
+  `stored_total_schema`, `identity_code_pattern` pin patterns, limits and references). -/
+
+/-- what cbc/code asks of a text: 1…32 characters, inside the code pattern -/
+def CodeConforms (s : List Nat) : Prop := 1 ≤ s.length ∧ s.length ≤ 32 ∧ codeRE.matchL s = true
+/-- what cbc/key asks of a text: 1…64 characters, inside the key pattern -/
+def KeyConforms (s : List Nat) : Prop := 1 ≤ s.length ∧ s.length ≤ 64 ∧ keyRE.matchL s = true
+/-- what tax/identity asks of `code`: 1…32 characters, inside the published identity pattern -/
+def IdentityCodeConforms (s : List Nat) : Prop := 1 ≤ s.length ∧ s.length ≤ 32 ∧ identitySchemaRE.matchL s = true
+
+/-- a code that is required and valid (`validation.Required` + `cbc.Code.Validate`) conforms to cbc/code -/
+theorem required_code_conforms (s : List Nat) (h : requiredCode s = true) : CodeConforms s := requiredCode_spec h
+
+/-- a key that is present and valid (`cbc.Key.Validate`) conforms to cbc/key -/
+theorem valid_key_conforms (s : List Nat) (h : keyValidate s = true) (hne : s ≠ []) : KeyConforms s :=
+  keyValidate_spec h hne
+
+/-- **extension values**: whatever `Extensions.Validate` accepts as the value of a member — for any
+    definition of its key: with a list of codes, with a pattern, with neither — is a text the schema
+    of cbc/code accepts, which is what tax/extensions refers every value to. -/
+theorem ext_value_conforms (kd : Option ExtKeyDef) (v : List Nat) (h : extValueValidate kd v = true) :
+    CodeConforms v := by
+  cases kd with
+  | none => simp [extValueValidate] at h
+  | some kd =>
+    simp only [extValueValidate, Bool.and_eq_true] at h
+    exact requiredCode_spec h.1.1
+
+theorem extensions_conform (defOf : List Nat → Option ExtKeyDef) (em : List (List Nat × List Nat))
+    (h : extensionsValidate defOf em = true) : ∀ kv ∈ em, CodeConforms kv.2 := by
+  intro kv hkv
+  simp only [extensionsValidate, Bool.and_eq_true, List.all_eq_true] at h
+  exact ext_value_conforms _ _ (h.2 kv hkv)
+
+/-- a definition without list and without pattern used to accept any text; not any more -/
+example : extValueValidate (some ⟨[], none⟩) (NStr.toCodes s%"01010101") = true ∧
+    extValueValidate (some ⟨[], none⟩) (NStr.toCodes s%"-0.25") = false ∧
+    extValueValidate (some ⟨[], none⟩) (NStr.toCodes s%"0101 ") = false ∧
+    extValueValidate (some ⟨[], none⟩) [] = false ∧
+    extValueValidate (some ⟨[], none⟩) (List.replicate 33 48) = false ∧
+    extValueValidate (some ⟨[], some fun _ => true⟩) (NStr.toCodes s%"62\t01") = false ∧
+    extValueValidate (some ⟨[NStr.toCodes s%"E1"], none⟩) (NStr.toCodes s%"E1") = true ∧
+    extValueValidate none (NStr.toCodes s%"E1") = false := by decide
+
+/-- the members of a rate of a stored tax summary as tax/total constrains them: `key` and `country`
+    are written only when not empty (`omitempty`), every extension value is a code -/
+def RateConforms (countries : List (List Nat)) (rt : RateTotalV) : Prop :=
+  (rt.key = [] ∨ KeyConforms rt.key) ∧ (rt.country = [] ∨ rt.country ∈ countries) ∧
+  ∀ kv ∈ rt.ext, CodeConforms kv.2
+
+theorem rate_total_conforms (countries : List (List Nat)) (defOf : List Nat → Option ExtKeyDef) (rt : RateTotalV)
+    (h : rateTotalValidate countries defOf rt = true) : RateConforms countries rt := by
+  simp only [rateTotalValidate, Bool.and_eq_true] at h
+  obtain ⟨⟨hk, hc⟩, he⟩ := h
+  refine ⟨?_, ?_, extensions_conform defOf rt.ext he⟩
+  · by_cases hne : rt.key = []
+    · exact Or.inl hne
+    · exact Or.inr (keyValidate_spec hk hne)
+  · simp only [taxCountryValidate, Bool.or_eq_true, List.isEmpty_iff, List.contains_eq_mem,
+      decide_eq_true_eq] at hc
+    exact hc
+
+/-- **stored tax summaries**: a summary `(*tax.Total).Validate` accepts has, in every category, a
+    code the schema of cbc/code accepts and a non-empty list of rates (so `rates` is printed as an
+    array, never `null`), and every rate conforms.  `countries` is the list `TaxCountryCode.Validate`
+    accepts (`tax_countries_listed`: each is listed in the schema). -/
+theorem stored_total_conforms (countries : List (List Nat)) (defOf : List Nat → Option ExtKeyDef)
+    (cats : List CategoryTotalV) (h : totalValidate countries defOf cats = true) :
+    ∀ ct ∈ cats, CodeConforms ct.code ∧ ct.rates ≠ [] ∧ ∀ rt ∈ ct.rates, RateConforms countries rt := by
+  intro ct hct
+  simp only [totalValidate, List.all_eq_true] at h
+  have hc := h ct hct
+  simp only [categoryTotalValidate, Bool.and_eq_true, Bool.not_eq_true', List.all_eq_true] at hc
+  obtain ⟨⟨h1, h2⟩, h3⟩ := hc
+  refine ⟨requiredCode_spec h1, ?_, fun rt hrt => rate_total_conforms countries defOf rt (h3 rt hrt)⟩
+  intro hnil
+  rw [hnil] at h2
+  cases h2
+
+def vatCodes : List Nat := NStr.toCodes s%"VAT"
+def esCodes : List Nat := NStr.toCodes s%"ES"
+def sampleRate : RateTotalV := ⟨NStr.toCodes s%"standard", esCodes, []⟩
+
+/-- non-vacuity, and the inputs of the former finding: no code, a malformed code, no rates,
+    a malformed rate key, an unknown country are refused -/
+example : totalValidate [esCodes] (fun _ => none) [⟨vatCodes, [sampleRate]⟩] = true ∧
+    totalValidate [esCodes] (fun _ => none) [⟨[], [sampleRate]⟩] = false ∧
+    totalValidate [esCodes] (fun _ => none) [⟨NStr.toCodes s%"VAT ", [sampleRate]⟩] = false ∧
+    totalValidate [esCodes] (fun _ => none) [⟨vatCodes, []⟩] = false ∧
+    totalValidate [esCodes] (fun _ => none) [⟨vatCodes, [⟨NStr.toCodes s%"Std Rate", [], []⟩]⟩] = false ∧
+    totalValidate [esCodes] (fun _ => none) [⟨vatCodes, [⟨[], NStr.toCodes s%"ZZ", []⟩]⟩] = false ∧
+    totalValidate [esCodes] (fun _ => none) [⟨vatCodes, [⟨[], [], []⟩]⟩] = true := by decide
+
+/-! ### tax identity codes -/
+
+theorem identity_subset {r : RE} {s : List Nat} (hm : r.matchL s = true)
+    (hw : r.within identitySchemaK = true) (hn : r.nullable = false) : identitySchemaRE.matchL s = true :=
+  (matchL_iff _ _).mpr (matches_plus_cls_of_within ((matchL_iff _ _).mp hm) hw hn)
+
+/-- **identity codes, generic rule**: a non-empty code that passes `Match(IdentityCodePatternRegexp)`
+    and `cbc.Code.Validate` (every country outside `IdentityCodeValidationIgnore`) is inside the
+    pattern and limits published for `tax.Identity.code` -/
+theorem identity_code_generic_conforms (s : List Nat) (h : identityCodeGeneric s = true) (hne : s ≠ []) :
+    IdentityCodeConforms s := by
+  simp only [identityCodeGeneric, codeValidate, Bool.and_eq_true, Bool.or_eq_true, List.isEmpty_iff,
+    decide_eq_true_eq] at h
+  obtain ⟨h1, h2⟩ := h
+  rcases h1 with h1 | h1
+  · exact absurd h1 hne
+  rcases h2 with h2 | ⟨⟨_, h32⟩, _⟩
+  · exact absurd h2 hne
+  have := length_le_utf8Len s
+  refine ⟨?_, by omega, identity_subset h1 (by decide) (by decide)⟩
+  cases s with
+  | nil => exact absurd rfl hne
+  | cons _ _ => simp
+
+/-- **identity codes, exempt country**: a non-empty code the Mexican rule accepts — the only rule
+    applied to the codes of the country exempt from the generic one, `&` and `Ñ` included — is
+    inside the pattern and limits published for `tax.Identity.code` -/
+theorem identity_code_mx_conforms (s : List Nat) (h : mxNational s = true) (hne : s ≠ []) :
+    IdentityCodeConforms s := by
+  simp only [mxNational, Bool.or_eq_true, List.isEmpty_iff] at h
+  rcases h with (h | h) | h
+  · exact absurd h hne
+  · have hl := fixedLen_length ((matchL_iff _ _).mp h) 13 (by decide)
+    exact ⟨by omega, by omega, identity_subset h (by decide) (by decide)⟩
+  · have hl := fixedLen_length ((matchL_iff _ _).mp h) 12 (by decide)
+    exact ⟨by omega, by omega, identity_subset h (by decide) (by decide)⟩
+
+/-- the code of examples/mx/out/retentions.json, refused by the old pattern `^[A-Z0-9]+$` -/
+example : mxNational (NStr.toCodes s%"K&A010301I16") = true ∧
+    identitySchemaRE.matchL (NStr.toCodes s%"K&A010301I16") = true ∧
+    identityRE.matchL (NStr.toCodes s%"K&A010301I16") = false ∧
+    codeRE.matchL (NStr.toCodes s%"K&A010301I16") = false ∧
+    mxNational (NStr.toCodes s%"ÑAB010301I16") = true ∧
+    identityCodeGeneric (NStr.toCodes s%"B98602642") = true ∧
+    identityCodeGeneric (NStr.toCodes s%"B-98602642") = false := by decide
+
 /-! ## obligations over regenerated facts -/
 namespace Expect
 
@@ -266,12 +420,12 @@ def patternsUsed : List NStr :=
 def expectedPatterns : List NStr :=
     [s%"^(?:[a-z]|[a-z0-9][a-z0-9-+]*[a-z0-9])$",
      s%"^[0-9]{4}-[0-9]{2}-[0-9]{2}T[0-9]{2}:[0-9]{2}:[0-9]{2}$",
-     s%"^[A-Z0-9]+$", s%"^[A-Z0-9]{2,3}$",
+     s%"^[A-Z0-9]+$", s%"^[A-Z0-9Ñ&]+$", s%"^[A-Z0-9]{2,3}$",
      s%"^[A-Za-z0-9]+([\\.\\-\\/ _\\:]?[A-Za-z0-9]+)*$",
      s%"^[a-z]{2}$",
      s%"^\\-?[0-9]+(\\.[0-9]+)?$", s%"^\\-?[0-9]+(\\.[0-9]+)?%$"]
 
-/-- the eight patterns of the schema files (`pattern` values and `patternProperties` keys) -/
+/-- the nine patterns of the schema files (`pattern` values and `patternProperties` keys) -/
 theorem pattern_inventory : sameSet patternsUsed expectedPatterns = true ∧
     sameSet patternInventory expectedPatterns = true := by decide +kernel
 
@@ -294,19 +448,23 @@ theorem amount_string_formats : amountStringFormats = ["%d", "NA", "", "-", "%s%
 theorem date_schema : strAt f_cal_date [s%"$defs", s%"Date", s%"format"] = s%"date" ∧
     strAt f_cal_date [s%"$defs", s%"Date", s%"type"] = s%"string" := by decide +kernel
 
-/-- keys: the Go validator (`Key.Validate`: Match + Length) uses the published pattern and limits -/
+/-- keys: the Go validator (`Key.Validate`: Match + Length) uses the published pattern and limits,
+    which are the ones `Leaves.keyValidate` has -/
 theorem key_validator_is_schema :
     strAt f_cbc_key [s%"$defs", s%"Key", s%"pattern"] = goKeyPattern ∧
     natAt f_cbc_key [s%"$defs", s%"Key", s%"minLength"] = some goKeyMin ∧
     natAt f_cbc_key [s%"$defs", s%"Key", s%"maxLength"] = some goKeyMax ∧
-    calls_Key_Validate = ["Validate", "string", "Match", "Length", "int", "int"] := by decide +kernel
+    calls_Key_Validate = ["Validate", "string", "Match", "Length", "int", "int"] ∧
+    compileL goKeyPattern.toCodes = some keyRE ∧ goKeyMin = 1 ∧ goKeyMax = 64 := by decide +kernel
 
-/-- codes: the Go validator (`Code.Validate`: Length + Match) uses the published pattern and limits -/
+/-- codes: the Go validator (`Code.Validate`: Length + Match) uses the published pattern and limits,
+    which are the ones `Leaves.codeValidate` has -/
 theorem code_validator_is_schema :
     strAt f_cbc_code [s%"$defs", s%"Code", s%"pattern"] = goCodePattern ∧
     natAt f_cbc_code [s%"$defs", s%"Code", s%"minLength"] = some goCodeMin ∧
     natAt f_cbc_code [s%"$defs", s%"Code", s%"maxLength"] = some goCodeMax ∧
-    calls_Code_Validate = ["Validate", "string", "Length", "int", "Match"] := by decide +kernel
+    calls_Code_Validate = ["Validate", "string", "Length", "int", "Match"] ∧
+    compileL goCodePattern.toCodes = some codeRE ∧ goCodeMin = 1 ∧ goCodeMax = 32 := by decide +kernel
 
 /-- the published `cbc.Code` pattern is the expression `normalizeCode_matches_partial` is about, and
     NormalizeCode is still the three steps the model mirrors, with the same two expressions -/
@@ -317,11 +475,62 @@ theorem code_pattern_and_normalizer :
     codeSeparatorRegexp = s%"([\\.\\-\\/ _\\:])[^A-Za-z0-9]+" ∧
     codeInvalidCharsRegexp = s%"[^A-Za-z0-9\\.\\-\\/ _\\:]" := by decide +kernel
 
-/-- tax identity codes: same pattern on both sides — but Go skips it for these countries
-    (known finding C11-K1; an empty list would close it) -/
+/-- tax identity codes: the published `code` property is a string of 1…32 characters with the pattern
+    `JSONSchemaExtend` sets (no reference to cbc/code any more), which compiles to `identitySchemaRE`;
+    Go applies `IdentityCodePattern` (= `identityRE`) except to the countries listed, whose regimes'
+    code patterns are the two `identity_code_mx_conforms` is about -/
 theorem identity_code_pattern :
-    strAt f_tax_identity [s%"$defs", s%"Identity", s%"properties", s%"code", s%"pattern"] = goIdentityCodePattern ∧
-    goIdentityCodeIgnore = [s%"MX"] := by decide +kernel
+    strAt f_tax_identity [s%"$defs", s%"Identity", s%"properties", s%"code", s%"pattern"] = goIdentityCodeSchemaPattern ∧
+    compileL goIdentityCodeSchemaPattern.toCodes = some identitySchemaRE ∧
+    hasAt f_tax_identity [s%"$defs", s%"Identity", s%"properties", s%"code", s%"$ref"] = false ∧
+    strAt f_tax_identity [s%"$defs", s%"Identity", s%"properties", s%"code", s%"type"] = s%"string" ∧
+    natAt f_tax_identity [s%"$defs", s%"Identity", s%"properties", s%"code", s%"minLength"] = some 1 ∧
+    natAt f_tax_identity [s%"$defs", s%"Identity", s%"properties", s%"code", s%"maxLength"] = some 32 ∧
+    compileL goIdentityCodePattern.toCodes = some identityRE ∧
+    goIdentityCodeIgnore = [s%"MX"] ∧
+    goExemptIdentityPatterns.map (fun p => compileL p.toCodes) = [some mxPersonRE, some mxCompanyRE] ∧
+    fields_Identity_Validate = ["Country: validation.Required",
+      "Code: validation.Skip.When( id.Country.In(IdentityCodeValidationIgnore...), ), validation.Match(IdentityCodePatternRegexp)",
+      "Scheme: validation.Match(IdentityCodePatternRegexp)", "Zone: validation.Empty", "Type:"] := by decide +kernel
+
+/-- stored tax summaries: the three `Validate` methods of tax/totals.go have the fields and rules
+    `Leaves.totalValidate` models (category: code and rates required; rate: key, country, ext), the
+    members have the types whose validators are modelled, `rates` is printed without `omitempty`
+    (a nil slice would be `null`), `key`, `country` and `ext` with it -/
+theorem stored_total_validators :
+    fields_Total_Validate = ["Categories:"] ∧
+    fields_CategoryTotal_Validate = ["Code: validation.Required", "Rates: validation.Required"] ∧
+    fields_RateTotal_Validate = ["Key:", "Country:", "Ext:"] ∧
+    members_CategoryTotal = ["Code cbc.Code code", "Retained bool retained,omitempty", "Rates []*RateTotal rates",
+      "Amount num.Amount amount", "Surcharge *num.Amount surcharge,omitempty"] ∧
+    members_RateTotal = ["Key cbc.Key key,omitempty", "Country l10n.TaxCountryCode country,omitempty",
+      "Ext Extensions ext,omitempty", "Base num.Amount base", "Percent *num.Percentage percent,omitempty",
+      "Surcharge *RateTotalSurcharge surcharge,omitempty", "Amount num.Amount amount"] := by decide
+
+/-- …and the published tax/total asks exactly that of those members: `code`, `rates`, `amount` required
+    in a category, `code` a cbc/code, `rates` an array of rates; `key` a cbc/key, `country` a tax country
+    code, `ext` a tax/extensions in a rate, where `base` and `amount` are required -/
+theorem stored_total_schema :
+    strsAt f_tax_total [s%"$defs", s%"CategoryTotal", s%"required"] = [s%"code", s%"rates", s%"amount"] ∧
+    strAt f_tax_total [s%"$defs", s%"CategoryTotal", s%"properties", s%"code", s%"$ref"] = s%"https://gobl.org/draft-0/cbc/code" ∧
+    strAt f_tax_total [s%"$defs", s%"CategoryTotal", s%"properties", s%"rates", s%"type"] = s%"array" ∧
+    strAt f_tax_total [s%"$defs", s%"CategoryTotal", s%"properties", s%"rates", s%"items", s%"$ref"] = s%"#/$defs/RateTotal" ∧
+    strsAt f_tax_total [s%"$defs", s%"RateTotal", s%"required"] = [s%"base", s%"amount"] ∧
+    strAt f_tax_total [s%"$defs", s%"RateTotal", s%"properties", s%"key", s%"$ref"] = s%"https://gobl.org/draft-0/cbc/key" ∧
+    strAt f_tax_total [s%"$defs", s%"RateTotal", s%"properties", s%"country", s%"$ref"] = s%"https://gobl.org/draft-0/l10n/tax-country-code" ∧
+    strAt f_tax_total [s%"$defs", s%"RateTotal", s%"properties", s%"ext", s%"$ref"] = s%"https://gobl.org/draft-0/tax/extensions" := by
+  decide +kernel
+
+/-- extension values: `Extensions.Validate` holds every value of a defined key to
+    `validation.Required` and to its own `Validate` (cbc.Code) before the list / pattern of the
+    definition is consulted; the published tax/extensions refers the value of every member whose
+    name is a key to cbc/code -/
+theorem extensions_validator :
+    steps_Extensions_Validate = ["k.Validate", "k.String", "k.String", "errors.New", "validation.Validate",
+      "kd.HasCode", "fmt.Errorf", "regexp.Compile", "re.MatchString", "errors.New"] ∧
+    valueRules_Extensions_Validate = ["validation.Validate(ev, validation.Required)"] ∧
+    patternRefsAt f_tax_extensions [s%"$defs", s%"Extensions"] = [(goKeyPattern, s%"https://gobl.org/draft-0/cbc/code")] := by
+  decide +kernel
 
 end Expect
 
